@@ -151,6 +151,21 @@ def direct_worker(inst):
                             terms.append(C.BINARY[prod](fa[aa, bb], ga[aa]))
                 pairs.append(([result_cells(r, env)[()]], [C.fold(red, terms)]))
             return pairs
+        if kind == "unrelated_array":
+            # reducing over a variable the argument does not mention whose domain is an ARRAY of bounded integers
+            # (size ** num_elements points, not size): add / mul / logaddexp / max (round-6 seeded change)
+            _, _, red, size, shape = inst
+            from funsor.domains import Array
+            car = {"add": "real", "mul": "real", "max": "real", "logaddexp": "log"}[red]
+            F = mk.array("f", (2,), car)
+            f = Tensor(F, OrderedDict(a=Bint[2]))
+            v = Variable("v", Array[size, shape])
+            npts = size ** int(np.prod(shape))
+            r = f.reduce(getattr(ops, red), frozenset({v}))
+            fa = F.view(np.ndarray)
+            for aa in range(2):
+                pairs.append(([result_cells(r, dict(a=aa))[()]], [C.fold(red, [fa[aa]] * npts)]))
+            return pairs
         if kind == "lambda_slice":
             _, _, body_dep, index = inst
             T = mk.array("t", (3, 2), "real")
@@ -200,6 +215,7 @@ def main():
               for sc in ((1.0, 3.0, 0.5, 3.0), (2.0, 2.0, -1.0), (0.0, 1.0))]
     chk.map("checks.c01", "function_worker", finsts, chunksize=1, family="function")
     dinsts = [("direct", "contraction", red, prod, zs, which) for red, prod in (("add", "mul"), ("logaddexp", "add")) for zs in (1, 2, 3) for which in ("z", "za", "zab")]
+    dinsts += [("direct", "unrelated_array", red, size, shape) for red in ("add", "mul", "logaddexp", "max") for size, shape in ((3, (2,)), (2, (3,)), (2, (2, 2)), (3, ()))]
     dinsts += [("direct", "lambda_slice", dep, idx) for dep in ("none", "i", "j", "ij")
                for idx in ((slice(None), 1), 2, (2, 0), (slice(None), slice(None)), (slice(None), slice(1, None)), (slice(1, 3),), (slice(0, 3, 2), 1), (Ellipsis, 0))]
     chk.map("checks.c01", "direct_worker", dinsts, chunksize=2, family="direct")
